@@ -1025,11 +1025,13 @@ func runDasCheck(t *testing.T, prop string) {
 			{dasCfg{Range: 2, Limit: 1, InitHead: 1, MaxHeight: 4, Answers: []string{"ok", "fail"}, Crash: true, Lag: true}, 6},
 		}
 	} else {
+		// header-store lag in the thorough tier only for C04 (the height-loss oracle it was added for);
+		// C13's timing oracles are decided with it in the quick configuration above
 		for _, rg := range []uint64{1, 2, 3} {
 			for _, lim := range []int{1, 2} {
 				for _, ih := range []uint64{1, 2, 3} {
 					for _, ro := range []int{0, 1} {
-						runs = append(runs, run{dasCfg{Range: rg, Limit: lim, InitHead: ih, MaxHeight: ih + 3, Answers: ans, Crash: true, RetryOrder: ro, Lag: ro == 1 && ih < 3}, 9})
+						runs = append(runs, run{dasCfg{Range: rg, Limit: lim, InitHead: ih, MaxHeight: ih + 3, Answers: ans, Crash: true, RetryOrder: ro, Lag: ro == 1 && ih < 3 && prop == "C04"}, 9})
 					}
 				}
 			}
